@@ -355,6 +355,20 @@ ElemForEach::sortChildren(
     
     NodeSorter* sorter = executionContext.getNodeSorter();
 
+    // The execution context has a single NodeSorter.  Evaluating a sort key
+    // (or an attribute value template of an xsl:sort) can lead back here, for
+    // instance through the first reference to a top-level variable whose
+    // content is built with a sorted xsl:for-each.  The shared instance is
+    // then in use by the outer sort: its key vector is not empty.  Use a
+    // private instance for the inner sort, so the outer one keeps its keys,
+    // its scratch vector and its caches.
+    NodeSorter  theLocalSorter(executionContext.getMemoryManager());
+
+    if (sorter->getSortKeys().empty() == false)
+    {
+        sorter = &theLocalSorter;
+    }
+
     NodeSortKeyVectorType&  keys = sorter->getSortKeys();
     assert(keys.empty() == true);
 
